@@ -5,6 +5,7 @@ in docs/; VHCT: Li et al. 2021 as implemented - its variance-aware threshold has
 repository, so the pinned formula is the reference and the rule guards it against change).
 """
 import ast
+import copy
 
 import sympy as sp
 
@@ -367,7 +368,15 @@ def layer_order_bottom_up(fc, sw, cell_loop):
 
     def val(e):
         """integer expression over D; len(NL) = D+1, partition depth = D"""
-        src = norm_src(e)
+        # locals bound exactly once in the function are read through their definition
+        class Res(ast.NodeTransformer):
+            def visit_Name(self, n):
+                ds = [a for a in ast.walk(fc.fn) if isinstance(a, (ast.Assign, ast.AugAssign, ast.For, ast.NamedExpr)) and
+                      any(isinstance(x, ast.Name) and x.id == n.id and isinstance(x.ctx, ast.Store) for x in ast.walk(a.targets[0] if isinstance(a, ast.Assign) else a.target))]
+                if len(ds) == 1 and isinstance(ds[0], ast.Assign) and isinstance(ds[0].targets[0], ast.Name) and n.id not in _nl_aliases:
+                    return ast.copy_location(copy.deepcopy(ds[0].value), n)
+                return n
+        src = norm_src(Res().visit(copy.deepcopy(e)))
         for a, b in (("self.partition.get_depth()", "D"), ("self.partition.depth", "D"), ("len(self.partition.get_node_list())", "(D + 1)")):
             src = src.replace(a, b)
         for nm in list(_nl_aliases):
@@ -401,6 +410,16 @@ def layer_order_bottom_up(fc, sw, cell_loop):
             return (r[1], r[0], -r[2]) if r else None
         if isinstance(e, ast.Call) and isinstance(e.func, ast.Name) and e.func.id == "list" and len(e.args) == 1:
             return seq_of(e.args[0])
+        if isinstance(e, ast.Call) and isinstance(e.func, ast.Name) and e.func.id == "zip" and len(e.args) == 2 and not e.keywords and \
+                isinstance(e.args[0], ast.Call) and norm_src(e.args[0].func) == "range" and len(e.args[0].args) == 1:
+            # zip(range(n), X): the first min(n, len X) elements of X
+            r = seq_of(e.args[1])
+            cnt = val(e.args[0].args[0])
+            if r is None or cnt is None:
+                return None
+            size = (r[1] - r[0]) * r[2] + 1
+            k = sp.Min(cnt, size)
+            return r[0], sp.simplify(r[0] + r[2] * (k - 1)), r[2]
         if isinstance(e, ast.Subscript) and isinstance(e.slice, ast.Slice):
             base = seq_of(e.value)
             if base is None or base != (sp.Integer(0), D, 1):
